@@ -115,6 +115,8 @@ type VC struct {
 	entryPC   []string
 	entryPCLen int
 	nq        int
+	pendingTargs map[*types.TypeParam]types.Type
+	constSort map[string]string
 }
 
 // frame: one (possibly inlined) function activation
@@ -129,6 +131,7 @@ type frame struct {
 	oldState *State
 	loopBase int
 	litFree  bool
+	targs    map[*types.TypeParam]types.Type
 }
 
 type retRec struct {
@@ -164,6 +167,10 @@ func (vc *VC) declare(name, sortS string) {
 		return
 	}
 	vc.declared[name] = true
+	if vc.constSort == nil {
+		vc.constSort = map[string]string{}
+	}
+	vc.constSort[name] = sortS
 	vc.decls = append(vc.decls, fmt.Sprintf("(declare-const %s %s)", name, sortS))
 }
 
@@ -372,7 +379,13 @@ func (vc *VC) merge(a, b *State, cond string) *State {
 	}
 	for k, va := range a.locals {
 		if vb, ok := b.locals[k]; ok {
-			m.locals[k] = ite(k.Name(), vc.eng.sorts.sortOf(k.Type()), va, vb)
+			srt := vc.eng.sorts.sortOf(vc.subst(k.Type()))
+			if s1, ok := vc.constSort[va]; ok {
+				srt = s1
+			} else if s2, ok := vc.constSort[vb]; ok {
+				srt = s2
+			}
+			m.locals[k] = ite(k.Name(), srt, va, vb)
 		}
 	}
 	for k, va := range a.globals {
